@@ -94,6 +94,53 @@ class HistFamily(Family):
         return jobs
 
 
+class SpecialFamily(Family):
+    """copy/move/swap histories over several vectors, for a covering set of allocator kinds"""
+
+    def __init__(self, nlists=10, nscripts=10, kinds=None):
+        super().__init__()
+        self.nlists, self.nscripts, self.kinds = nlists, nscripts, kinds
+
+    def jobs(self, rng, tier):
+        mult = 1 if tier == "quick" else 5
+        kinds = self.kinds or [K_DEFAULT, K_PMR, (1, 1, 1, 0, 0), (0, 1, 0, 0, 1), (1, 0, 1, 0, 1), (1, 1, 1, 1, 0)]
+        if tier != "quick":
+            kinds = gen.AKINDS_ALL
+        jobs = []
+        Ls = self.lists(rng, tier, self.nlists)
+        rng.shuffle(Ls)
+        Ls = Ls[:(14 if tier == "quick" else 60)]
+        for li, L in enumerate(Ls):
+            # covering design: every list gets two kinds, rotating
+            for K in ([kinds[li % len(kinds)], kinds[(li * 7 + 3) % len(kinds)]] if tier == "quick" else rng.sample(kinds, 4)):
+                scripts = []
+                for _ in range(self.nscripts * mult):
+                    lines, st = gen.gen_special(L, K, rng, rng.randrange(6, 30))
+                    self.add_stats(st)
+                    scripts.append((gen.script_id(lines), lines, None))
+                jobs.append(Job(L, K, scripts, tag="special"))
+        return jobs
+
+
+class Multi(Family):
+    def __init__(self, *fams):
+        super().__init__()
+        self.fams = fams
+
+    def jobs(self, rng, tier):
+        out = []
+        for f in self.fams:
+            out += f.jobs(rng, tier)
+        return out
+
+    def stats(self):
+        st = {}
+        for f in self.fams:
+            for k, v in f.stats().items():
+                st[k] = st.get(k, 0) + v
+        return st
+
+
 FAMILIES = {}
 
 
@@ -172,8 +219,12 @@ def shrink(v, prop, run_pair, canon, split_blocks, first_diff, orc, rundir, budg
     return v
 
 
-for p in ("C03", "C04", "C05", "C10", "C16", "C18", "C07"):
+for p in ("C08", "C09"):
+    FAMILIES[p] = SpecialFamily()
+for p in ("C03", "C04", "C10", "C16", "C18"):
     FAMILIES[p] = HistFamily()
-for p in ("C01", "C06"):
-    FAMILIES[p] = HistFamily(allow_overlap=True)
+FAMILIES["C01"] = HistFamily(allow_overlap=True)
+FAMILIES["C05"] = Multi(HistFamily(nlists=16, nhist=8), SpecialFamily(nlists=6, nscripts=8))
+FAMILIES["C07"] = Multi(HistFamily(nlists=16, nhist=8), SpecialFamily(nlists=6, nscripts=8))
+FAMILIES["C06"] = Multi(HistFamily(nlists=16, nhist=8, allow_overlap=True), SpecialFamily(nlists=6, nscripts=8))
 FAMILIES["C02"] = HistFamily(strict_block=False, nhist=6, nfill=16)
